@@ -1,8 +1,11 @@
 import Model.Common.Proto
+import Model.Common.HashProto
 open Btc
 
 /-- line protocol for the shared primitives (hashes, EC arithmetic): see harness/shared.py -/
-def handle : List String → String
-  | _ => "bad-op"
+def handle (toks : List String) : String :=
+  match hashOp toks with
+  | some r => r
+  | none => "bad-op"
 
 def main : IO Unit := runLoop handle
